@@ -178,12 +178,42 @@ func stripQuantified(q string) string {
 	var b strings.Builder
 	for _, x := range xs {
 		if x.IsL && len(x.List) == 2 && x.List[0].Atom == "assert" && containsQuant(x.List[1]) {
+			// a top-level universal over one Int variable is replaced by its instances at 0..7
+			// (candidate search only; candidates are validated by replay)
+			q := x.List[1]
+			if q.IsL && len(q.List) == 3 && q.List[0].Atom == "forall" && len(q.List[1].List) == 1 &&
+				q.List[1].List[0].IsL && len(q.List[1].List[0].List) == 2 && q.List[1].List[0].List[1].Atom == "Int" {
+				v := q.List[1].List[0].List[0].Atom
+				body := q.List[2]
+				if body.IsL && len(body.List) >= 2 && body.List[0].Atom == "!" {
+					body = body.List[1]
+				}
+				if !containsQuant(body) {
+					for k := 0; k < 8; k++ {
+						b.WriteString("(assert " + substSX(body, v, fmt.Sprint(k)).String() + ")\n")
+					}
+				}
+			}
 			continue
 		}
 		b.WriteString(x.String())
 		b.WriteString("\n")
 	}
 	return b.String()
+}
+
+func substSX(x *SX, v, by string) *SX {
+	if !x.IsL {
+		if x.Atom == v {
+			return &SX{Atom: by}
+		}
+		return x
+	}
+	n := &SX{IsL: true}
+	for _, c := range x.List {
+		n.List = append(n.List, substSX(c, v, by))
+	}
+	return n
 }
 
 func containsQuant(x *SX) bool {
